@@ -8,6 +8,7 @@ import (
 	"strings"
 	"sync"
 	"testing"
+	"time"
 
 	"github.com/gethiox/HIDI/internal/pkg/input"
 	"github.com/gethiox/HIDI/internal/pkg/midi/device/config"
@@ -336,17 +337,24 @@ var invalidations = []invalidation{
 	})},
 }
 
+const hangMarker = "HANG: LoadDeviceConfigs did not return within 20 s of wall-clock time"
+
 func loadAll(fsys *simfs.FS) (cfgs config.DeviceConfigs, err error, pv interface{}, stack string) {
 	simfs.Attach(fsys)
 	defer simfs.Attach(nil)
-	defer func() {
-		if r := recover(); r != nil {
-			pv = r
-			stack = trimStack(fmt.Sprint(r) + "\n" + string(debugStack()))
-		}
-	}()
-	var wg sync.WaitGroup
-	cfgs, err = config.LoadDeviceConfigs(context.Background(), &wg)
+	hung := guarded(20*time.Second, func() {
+		defer func() {
+			if r := recover(); r != nil {
+				pv = r
+				stack = trimStack(fmt.Sprint(r) + "\n" + string(debugStack()))
+			}
+		}()
+		var wg sync.WaitGroup
+		cfgs, err = config.LoadDeviceConfigs(context.Background(), &wg)
+	})
+	if hung {
+		pv, stack = hangMarker, ""
+	}
 	return
 }
 
@@ -690,6 +698,13 @@ func runW4C09(t *testing.T, job *Job, seed uint64, rp *Replay) RunOut {
 	ro.Steps = len(contents)
 	ro.Hash = hashStr(string(contents[0]))
 	ro.Sample = fmt.Sprintf("seed=%d files=%d first: %s content=%q", seed, len(contents), shorten(notes[0], 300), shorten(string(contents[0]), 160))
+	if pv == hangMarker {
+		b, _ := json.Marshal(string(contents[0]))
+		ro.Vio = &Vio{Props: []string{"C09"}, Clause: "device_config_hang", Detail: fmt.Sprintf("%s; files: %v", hangMarker, notes)}
+		ro.Replay = &Replay{World: "W4C09", Prop: "C09", Seed: seed, Tier: job.Tier, Ops: b, Override: len(contents) == 1, Config: string(contents[0])}
+		ro.Replay.Script = nil
+		return ro
+	}
 	if pv != nil {
 		// which file?
 		culprit := 0
